@@ -389,6 +389,9 @@ pub fn write_replay(id: &str, fl: &Failure) -> PathBuf {
 }
 
 pub fn write_evidence(ctx: &Ctx, out: &Outcome, violations: u64) {
+    if std::env::var("VERIF_NO_EVIDENCE").is_ok() {
+        return;
+    }
     let dir = PathBuf::from(VERIF_DIR).join("evidence");
     let _ = std::fs::create_dir_all(&dir);
     let st = &out.stats;
